@@ -1,5 +1,7 @@
 import BbRe.Lemmas.SchedTreeRead
 import BbRe.Lemmas.SchedLiveQuiesce6
+import BbRe.Lemmas.SchedTreeCross
+import BbRe.Lemmas.SchedTreeLock
 /-!
 # C06 (tree layer) — nothing is retained in the invocation trees
 
@@ -119,5 +121,20 @@ theorem only_roots (ts : TState) (h : TReachable ts) (hw : ts.s.workers = []) (h
     | cons k r =>
       obtain ⟨p, o, hq, _⟩ := ((hT.queuedChildren n hn).2 k).mp (by rw [hx]; exact List.mem_cons_self)
       exact absurd hq (hnoQ _ _ _)
+
+/-- **The cross-checks of the tree layer never fire.**  `Model/SchedTree.lean` rejects two things that
+`Model/Sched.lean` accepts: the removal of a size-class queue that still has workers and the removal of a
+worker that is parked inside `Synchronize` (its cleanup callbacks could not keep the invocation trees right
+there).  By the cleanup accounting of C06 the cleanup queue never schedules either: in every reachable state
+of the tree layer `bq.enter` — the only caller of the callbacks, run at the start of every segment on the
+state the previous segment left — returns exactly what its copy without the two checks returns
+(`Lemmas/SchedTreeCross.lean`, `tEnterNG`), results and errors alike. -/
+theorem crosschecks_never_fire (ts : TState) (h : TReachable ts) (hints : Hints) (x : Extras) (now : Nat) :
+    tEnter hints x ts now = tEnterNG hints x ts now := by
+  have hr : Reachable ts.s := by
+    induction h with
+    | init cfg => exact Reachable.init cfg
+    | step g _ hs ih => exact Reachable.step g.seg ih (tstep_ref _ _ g hs)
+  exact tEnter_ng (BbRe.Lemmas.SchedInv.inv_reachable hr) (BbRe.Lemmas.SchedLive.kwc_reachable hr)
 
 end BbRe.Properties.C06Tree
